@@ -241,8 +241,9 @@ func runC04(c *Ctx) {
 		// the precommitted height is the one the block being applied produced: it is read after
 		// the block's execution (whose first step, the BFT hook, recomputes it in the staged store)
 		{
-			execs := CallsIn(s.Fn, "(*consensus.stateExecuter).Execute")
-			for _, g := range CallsIn(s.Fn, "(*consensus/liskbft.API).GetBFTHeights") {
+			root := knownRootOf(s.Fn)
+			execs := CallsIn(root, "(*consensus.stateExecuter).Execute")
+			for _, g := range CallsIn(root, "(*consensus/liskbft.API).GetBFTHeights") {
 				okAfter := len(execs) == 1 && instrDominates(execs[0].Call, g.Call)
 				c.Require("C04.R3 precommitted-read-after-execution", key, p.InstrPos(g.Call), "GetBFTHeights is called after abi.Execute ran the block's BFT hook (the raise happens in the step that applies the block causing it)", okAfter, "")
 			}
